@@ -243,11 +243,9 @@ theorem skipSpaces_spec (z : Z) :
       (skipSpaces z).before = sp.reverse ++ z.before ∧ (skipSpaces z).line = z.line :=
   advWhileF_spaces _ z
 
-open HL.Spec.LexSpec in
 /-- What one call of `Next` does: it skips blanks `sp` and then either
-    * `tok`: returns a token that starts right behind the blanks, consuming `pre` which
+    * `tok`: returns a token that starts right behind the blanks and covers `pre`, which
       contains no line feed (the EOF token at the end of input is the case `pre = []`), or
-    * `punct`: returns an empty `( ) [ ] |` token *behind* its character `c`, or
     * `newline`: consumes exactly one line feed, returns the Newline token for it and moves
       to column 1 of the next line. -/
 inductive Step (z : Z) (r : Token × Z) : Prop
@@ -256,11 +254,6 @@ inductive Step (z : Z) (r : Token × Z) : Prop
       (hbefore : r.2.before = pre.reverse ++ sp.reverse ++ z.before)
       (hline : r.2.line = z.line) (hty : r.1.ty ≠ .newline)
       (hpl : r.1.pos.line = z.line) (hpo : r.1.pos.off = z.before.length + sp.length) : Step z r
-  | punct (sp : Bytes) (c : UInt8) (hsp : ∀ c ∈ sp, c = 0x20) (hc : c ≠ LF)
-      (hafter : z.after = sp ++ c :: r.2.after)
-      (hbefore : r.2.before = c :: sp.reverse ++ z.before)
-      (hline : r.2.line = z.line) (hty : isPunct r.1 = true) (hval : r.1.val = [c])
-      (hpos : r.1.pos = r.2.position) (hstop : r.1.stop = r.2.position) : Step z r
   | newline (sp : Bytes) (hsp : ∀ c ∈ sp, c = 0x20)
       (hafter : z.after = sp ++ LF :: r.2.after)
       (hbefore : r.2.before = LF :: sp.reverse ++ z.before)
@@ -290,15 +283,6 @@ theorem Step.skip {z0 z : Z} {r : Token × Z} (sp : Bytes) (hsp : ∀ c ∈ sp, 
     | cons c t =>
       have hc : c = 0x20 := hsp' c (by simp)
       exact absurd hc (hz c (t ++ (pre ++ r.2.after)) (by rw [hafter]; simp))
-  | punct sp' c hsp' hc hafter hbefore hline hty hval hpos hstop =>
-    cases sp' with
-    | nil =>
-      refine Step.punct sp c hsp hc ?_ ?_ (by rw [hline, hl]) hty hval hpos hstop
-      · rw [ha, hafter]; simp
-      · rw [hbefore, hb]; simp
-    | cons d t =>
-      have hd : d = 0x20 := hsp' d (by simp)
-      exact absurd hd (hz d (t ++ c :: r.2.after) (by rw [hafter]; simp))
   | newline sp' hsp' hafter hbefore hline hcol hstart hty hpl hpo hstop =>
     cases sp' with
     | nil =>
@@ -310,14 +294,9 @@ theorem Step.skip {z0 z : Z} {r : Token × Z} (sp : Bytes) (hsp : ∀ c ∈ sp, 
       have hd : d = 0x20 := hsp' d (by simp)
       exact absurd hd (hz d (t ++ LF :: r.2.after) (by rw [hafter]; simp))
 
-theorem punct_step {z : Z} {c : UInt8} {t : Bytes} (ty : TokType) (hz : z.after = c :: t) (hc : c < 0x80)
-    (hne : c ≠ LF) (hty : HL.Spec.LexSpec.isPunct ⟨ty, [c], default, default⟩ = true) :
-    Step z (punct ty [c] z) := by
-  unfold punct
-  simp only []
-  rw [advance_ascii hz hc]
-  refine Step.punct [] c (by simp) hne (by simpa [mkTok] using hz) (by simp [mkTok]) rfl ?_ rfl rfl rfl
-  simpa [HL.Spec.LexSpec.isPunct, mkTok] using hty
+theorem punct_nl (ty : TokType) (v : Bytes) {z : Z} (hp : peek z ≠ LF) (hty : ty ≠ .newline) :
+    NL z (punct ty v z) :=
+  mkTok_nl _ _ (advance_nl hp) hty
 
 theorem scanNewline_step {z : Z} {t : Bytes} (hz : z.after = LF :: t) : Step z (scanNewline z) := by
   unfold scanNewline
@@ -338,9 +317,6 @@ theorem Step.congr {z z' : Z} {r : Token × Z} (ha : z'.after = z.after) (hb : z
   | tok sp pre hsp hpre hafter hbefore hline hty hpl hpo =>
     exact Step.tok sp pre hsp hpre (by rw [ha]; exact hafter) (by rw [hb]; exact hbefore)
       (by rw [hl]; exact hline) hty (by rw [hl]; exact hpl) (by rw [hb]; exact hpo)
-  | punct sp c hsp hc hafter hbefore hline hty hval hpos hstop =>
-    exact Step.punct sp c hsp hc (by rw [ha]; exact hafter) (by rw [hb]; exact hbefore)
-      (by rw [hl]; exact hline) hty hval hpos hstop
   | newline sp hsp hafter hbefore hline hcol hstart hty hpl hpo hstop =>
     exact Step.newline sp hsp (by rw [ha]; exact hafter) (by rw [hb]; exact hbefore)
       (by rw [hl]; exact hline) hcol hstart hty (by rw [hl]; exact hpl) (by rw [hb]; exact hpo) hstop
@@ -358,26 +334,12 @@ theorem scanInLineAt_step (C : Classes) (z : Z) : Step z (scanInLineAt C z) := b
     have hc : ch ≠ LF := by simpa using c1
     have hp : peek z ≠ LF := by simpa [peek, hz] using hc
     refine step_ite (fun _ => Step.of_nl (scanComment_nl hp)) fun _ => ?_
-    refine step_ite (fun h => step_ite (fun _ => ?_) fun _ => Step.of_nl (scanCode_nl hp)) fun _ => ?_
-    · have : ch = 0x28 := by simpa using h
-      subst this
-      exact punct_step _ hz (by decide) (by decide) (by decide)
-    refine step_ite (fun h => ?_) fun _ => ?_
-    · have : ch = 0x29 := by simpa using h
-      subst this
-      exact punct_step _ hz (by decide) (by decide) (by decide)
-    refine step_ite (fun h => ?_) fun _ => ?_
-    · have : ch = 0x5B := by simpa using h
-      subst this
-      exact punct_step _ hz (by decide) (by decide) (by decide)
-    refine step_ite (fun h => ?_) fun _ => ?_
-    · have : ch = 0x5D := by simpa using h
-      subst this
-      exact punct_step _ hz (by decide) (by decide) (by decide)
-    refine step_ite (fun h => ?_) fun _ => ?_
-    · have : ch = 0x7C := by simpa using h
-      subst this
-      exact punct_step _ hz (by decide) (by decide) (by decide)
+    refine step_ite (fun _ => step_ite (fun _ => Step.of_nl (punct_nl _ _ hp (by decide))) fun _ =>
+      Step.of_nl (scanCode_nl hp)) fun _ => ?_
+    refine step_ite (fun _ => Step.of_nl (punct_nl _ _ hp (by decide))) fun _ => ?_
+    refine step_ite (fun _ => Step.of_nl (punct_nl _ _ hp (by decide))) fun _ => ?_
+    refine step_ite (fun _ => Step.of_nl (punct_nl _ _ hp (by decide))) fun _ => ?_
+    refine step_ite (fun _ => Step.of_nl (punct_nl _ _ hp (by decide))) fun _ => ?_
     refine step_ite (fun _ => Step.of_nl (scanAt_nl hp)) fun _ => ?_
     refine step_ite (fun _ => Step.of_nl (scanEquals_nl hp)) fun _ => ?_
     refine step_ite (fun _ => Step.of_nl (scanStatus_nl hp)) fun _ => ?_
